@@ -9,7 +9,7 @@ extern "C" {
 
 enum { H_PUT, H_GET, H_REMOVE, H_CLEAR, H_SIZE, H_WALK, H_LOCKEDWALK, H_DEBUG };
 static const std::vector<std::string> H_NAMES = {"put", "get", "remove", "clear", "size", "walk", "lockedwalk", "debug"};
-enum { NULLKEY = 0x100, NULLDATA = 0x200 };
+enum { NULLKEY = 0x100, NULLDATA = 0x200, SELFREF = 0x400 };   // SELFREF: the value passed to put points into the table's own stored value of that key
 
 struct HashWorld;
 struct HashModel : Model {
@@ -74,12 +74,14 @@ struct HashWorld : World {
             int klass = (api == 1 || api == 2 || mode == "threads") ? (r.chance(1, 2) ? 1 : 5) : (int)r.below(6);
             op.b = (int)r.below(1 << 20); op.c = mode == "threads" ? r.range(1, 12) : gen_vlen(r, 200); op.d = api | (klass << 2);
             if (api == 3) op.b = (int)r.next();      // putint: any 32-bit value, sign included
+            if (api == 2 && mode != "threads" && r.chance(1, 4)) op.c = gen_fmt_len(r);
             break;
         }
         case H_GET: op.d = (mode == "threads" ? 1 : (int)r.below(2)) | ((int)r.below(3) << 1); break;
         case H_WALK: case H_LOCKEDWALK: op.d = (int)r.below(2); break;
         default: break;
         }
+        if (mode != "threads" && op.k == H_PUT && r.chance(1, 25)) { op.d = SELFREF; return op; }
         if (prop == "C14" && r.chance(1, 8) && (op.k == H_PUT || op.k == H_GET || op.k == H_REMOVE)) op.d |= r.chance(1, 2) ? NULLKEY : (op.k == H_PUT ? NULLDATA : NULLKEY);
         return op;
     }
@@ -134,6 +136,15 @@ struct HashWorld : World {
         case H_PUT: {
             Bytes k = key(op.a), v = value(op); int api = op.d & 3; bool ok;
             Bytes kz = k + Bytes(1, '\0');
+            if (op.d & SELFREF) {
+                CallerBuf kb2(kz); size_t n = 0; void *p;
+                { InSut s; p = t->get(t, (const char *)kb2.p, &n, false); }
+                if (!p || n == 0) return R_ok("skip");
+                size_t off = (size_t)op.c % n;
+                { InSut s; ok = t->put(t, (const char *)kb2.p, (char *)p + off, n - off); }
+                x.st.add("probe.put_from_own_value");
+                return ok ? R_ok() : R_fail();
+            }
             CallerBuf kb(kz), vb(v);
             const char *kp = (op.d & NULLKEY) ? nullptr : (const char *)kb.p;
             const void *vp = (op.d & NULLDATA) ? nullptr : vb.p;
@@ -258,6 +269,7 @@ struct HashWorld : World {
 Result HashModel::apply(const Op &op) {
     switch (op.k) {
     case H_PUT: {
+        if (op.d & SELFREF) { auto it = m.find(w->key(op.a)); if (it == m.end() || it->second.empty()) return R_ok("skip"); it->second = it->second.substr((size_t)op.c % it->second.size()); return R_ok(); }
         if (op.d & (NULLKEY | NULLDATA)) return R_fail();
         Bytes v = w->value(op);
         if ((op.d & 3) == 1 || (op.d & 3) == 2) v = Bytes(v.c_str()) + Bytes(1, '\0');
